@@ -1,8 +1,8 @@
 """C06 — Work in the shared queue is not starved by local work."""
-from .. import queues
+from .. import queues, pwsq
 
 ID = "C06"
-PROPS = ["theories/Props/C06.vo"]
+PROPS = ["theories/Props/C06.vo", "theories/Props/PWS.vo"]
 CASES_MODULE = "Cases.C06"
 AREA = "ows"
 ISOLATE = True
@@ -12,9 +12,22 @@ SHRINK_KEY = "ops"
 RULE = ("sequential histories over 1-4 handles where one handle pops 130-200 times without running empty while items wait in the shared queue, plus idle pops after steals and random histories; "
         "every call under a 2.5 s watchdog (expiry = observation `diverged`); non-trivial = the model's run "
         "overflowed, stole, consulted the shared queue on a tick, or popped idle; distinct = distinct op list")
-term = queues.term
-nontrivial = queues.nontrivial
-distribution = queues.distribution
+
+
+def term(case, obs):
+    if pwsq.is_plain(case):
+        return "(@inr qcase pcase %s)" % pwsq.term(case, obs)
+    return "(@inl qcase pcase %s)" % queues.term(case, obs)
+
+
+def nontrivial(case, obs, verdict):
+    return pwsq.nontrivial(case, obs, verdict) if pwsq.is_plain(case) else queues.nontrivial(case, obs, verdict)
+
+
+def distribution(results):
+    d = queues.distribution([r for r in results if not pwsq.is_plain(r[0])])
+    d["plain_queue"] = pwsq.distribution([r for r in results if pwsq.is_plain(r[0])])
+    return d
 
 
 def gen(rng, tier):
@@ -30,12 +43,15 @@ def gen(rng, tier):
             cases.append(queues.fill_steal_fill(rng))
         else:
             cases.append(queues.random_history(rng, rng.randint(5, 40), drain=True))
+    cases += pwsq.gen_c06(rng, tier)
     return cases
 
-PINNED = ['C06_holds', 'C06_wf_needed', 'C06_tick_window']
+PINNED = ['C06_holds', 'C06_wf_needed', 'C06_tick_window', 'PWS_C06_holds', 'PWS_C06_wf_needed', 'PWS_C06_idle_pop_means_empty', 'PWS_C06_tick_pop_serves_shared', 'PWS_C06_tick_window']
 LEVEL_TEXT = 'Theorem over all well-formed histories: with the shared queue non-empty a handle is served from it within 61 consecutive pops (invariant starve <= tick mod 61, including the u32 wrap), an idle pop implies nothing is pending anywhere; plus the stand-alone tick-window theorem for every 32-bit start value. Tied to the code by 130-200-pop histories and idle pops after steals.'
 LEVEL_NOTE = ("Trusted: Coq kernel + vm_compute; hand transcription of ordered_work_steal.rs (model OWS.v) validated on the "
               "sampled histories only; st3 rings / crossbeam injectors / skiplist modelled as FIFO lists and a sorted map; "
               "sequential histories (one call at a time); the steal start index is an input via the build.rs import "
-              "rewrite. The plain WorkStealQueue is not modelled. No axioms (closed under the global context).")
+              "rewrite. No axioms (closed under the global context).")
 TECHNIQUE = "Coq proof (invariants over all histories of a Gallina model) + lockstep differential correspondence inside Coq"
+
+LEVEL_TEXT += ' The plain WorkStealQueue (Queue/PWS.v) has the corresponding theorems: an idle local pop means nothing is pending anywhere, the 61st-pop tick serves the shared queue first, and every window of 61 pops contains a tick.'
